@@ -124,7 +124,7 @@ func init() {
 			Calls: []string{"Pow", "Int64N", "Truncate", "Nanoseconds", "Duration", "int64", "float64"}},
 		skelTarget{Name: "ShellOperator.taskHandleHookRun", File: "pkg/shell-operator/operator.go", Recv: "ShellOperator", Func: "taskHandleHookRun",
 			Fields: []string{"AllowFailure", "ExecuteOnSynchronization", "BindingContext", "MonitorIDs", "Status", "Version", "Group", "BindingType"},
-			Calls:  []string{"combineBindingContextForHook", "handleRunHook", "UpdateMetadata", "UnlockKubernetesEventsFor", "IsSynchronization", "RateLimitWait", "UpdateFailureMessage", "stopCombineOnAllowFailureChange"}},
+			Calls:  []string{"combineBindingContextForHook", "handleRunHook", "UpdateMetadata", "UnlockKubernetesEventsFor", "IsSynchronization", "RateLimitWait", "UpdateFailureMessage", "HookMetadataAccessor"}},
 	)
 }
 
